@@ -25,6 +25,13 @@ type TrainStep struct {
 	// Again (1 + index of an earlier step, 0 = none): this step feeds the very input and target
 	// tensor objects of that step again (a later epoch over the same mini-batches)
 	Again int `json:"again,omitempty"`
+	// Partial (with SkipReset): only one parameter's reset is omitted: 1 = the weight's, 2 = the
+	// bias's; the other parameter is reset as usual
+	Partial int `json:"partial,omitempty"`
+	// SitOut: one parameter is not updated in this step (1 = weight, 2 = bias; a warm-up or
+	// alternating schedule); it is reset like the other one and must start the next step without
+	// anything left from this one
+	SitOut int `json:"sit_out,omitempty"`
 }
 
 // C11Case: a model FC(F -> O) -> activation -> (Reshape to [B*O] for mse/bce) -> loss, trained
@@ -75,6 +82,11 @@ func genC11(t *rapid.T) C11Case {
 	}
 	for s := 0; s < ns; s++ {
 		st := TrainStep{Batch: rapid.IntRange(1, 5).Draw(t, "batch"), SkipReset: s == skipAt}
+		if st.SkipReset {
+			st.Partial = rapid.IntRange(0, 2).Draw(t, "partial")
+		} else if rapid.IntRange(0, 5).Draw(t, "sitout") == 0 {
+			st.SitOut = rapid.IntRange(1, 2).Draw(t, "sitoutwho")
+		}
 		if rapid.IntRange(0, 3).Draw(t, "batch1") == 0 {
 			st.Batch = 1
 		}
@@ -139,7 +151,7 @@ func checkC11(c C11Case) *Failure {
 	stale := false // a reset was omitted: the parameters are spent
 	multiBatch, steps, sawStale := false, 0, false
 	var xObj, tObj []tensor.Tensor
-	epochs := false
+	epochs, partial, satOut := false, false, false
 	for si, st := range c.Steps {
 		if st.Batch < 1 || len(st.X) != st.Batch*c.F || len(st.T) != st.Batch*c.O {
 			return nil
@@ -173,6 +185,15 @@ func checkC11(c C11Case) *Failure {
 			p := a
 			if c.Loss != "ce" {
 				p, _ = ctx.Reshape(a, []int{st.Batch * c.O})
+			}
+			if c.Loss == "bce" {
+				// 1-p is formed from a rounded p: within 1e-6 of 1 its relative error (2^-53 / (1-p))
+				// exceeds the tolerance of this check, whatever the implementation
+				for _, e := range p.E {
+					if d := 1 - e.V; d > 0 && d < 1e-6 {
+						return ref.D{}, 0, false
+					}
+				}
 			}
 			L, gap := refLoss(ctx, c.Loss, p, ref.FromVals(p.Shape, st.T))
 			return L, gap, true
@@ -268,8 +289,18 @@ func checkC11(c C11Case) *Failure {
 		if err := tensor.BackPropagate(l); err != nil {
 			return failf("step %d: BackPropagate returned error: %v", si, err)
 		}
-		errW := opt.Update(ws[0].Value)
-		errB := opt.Update(ws[1].Value)
+		sitOut := 0
+		if !stale && !st.SkipReset && (st.SitOut == 1 || st.SitOut == 2) {
+			sitOut = st.SitOut
+			satOut = true
+		}
+		var errW, errB error
+		if sitOut != 1 {
+			errW = opt.Update(ws[0].Value)
+		}
+		if sitOut != 2 {
+			errB = opt.Update(ws[1].Value)
+		}
 		if stale {
 			// the previous step omitted the reset: this update must be refused, weights untouched
 			sawStale = true
@@ -296,6 +327,12 @@ func checkC11(c C11Case) *Failure {
 			g, s []float64
 			slot int
 		}{{"W", wV, gW, sW, 0}, {"B", bV, gB, sB, c.O}} {
+			if sitOut == pi+1 {
+				if *ws[pi].Value != []tensor.Tensor{wT, bT}[pi] {
+					return failf("step %d: %s was not updated in this step but the tensor behind its pointer changed", si, par.name)
+				}
+				continue
+			}
 			ns, nv, err := lib.Read(*ws[pi].Value)
 			if err != nil {
 				return failf("step %d: new %s unreadable: %v", si, par.name, err)
@@ -356,6 +393,11 @@ func checkC11(c C11Case) *Failure {
 		}
 		if st.SkipReset {
 			stale = true
+			if st.Partial == 1 || st.Partial == 2 {
+				// only one of the two resets is forgotten
+				(*ws[2-st.Partial].Value).ResetGradContext(true)
+				partial = true
+			}
 		} else {
 			for pi := range ws {
 				(*ws[pi].Value).ResetGradContext(true)
@@ -378,6 +420,12 @@ func checkC11(c C11Case) *Failure {
 	}
 	if epochs {
 		evid.Class("C11.epochs_feeding_the_same_batch_tensors_again")
+	}
+	if satOut {
+		evid.Class("C11.a_parameter_sits_out_a_step")
+	}
+	if partial && sawStale {
+		evid.Class("C11.one_of_two_resets_omitted_reported")
 	}
 	if sawStale {
 		evid.Class("C11.omitted_reset_reported")
